@@ -1,9 +1,10 @@
 #!/bin/bash
-# tools/mutant.sh <patch-file> <ID> [extra check args] : apply patch to /repo, run check, revert
+# tools/mutant.sh <patch-file> <ID> [extra check args] : apply patch to /repo, run check, revert (always)
 set -u
 patch="$(realpath "$1")"; id="$2"; shift 2
+if [ -n "$(git -C /repo status --porcelain)" ]; then echo "/repo not clean"; exit 9; fi
+trap 'git -C /repo checkout -- . ' EXIT INT TERM
 git -C /repo apply "$patch" || { echo "patch does not apply"; exit 9; }
 /verif/check "$id" --no-evidence "$@"; rc=$?
-git -C /repo checkout -- .
 echo "exit=$rc"
 exit $rc
